@@ -495,6 +495,9 @@ func genEmit(t *rapid.T) Emit {
 	e.ID = rapid.SampledFrom([]string{"1", "0", "-0", "1e3", "1.5", `""`, `"1"`, `"a\nb"`, `"😀"`, "12345678901234567890", `"` + strings.Repeat("x", 300) + `"`}).Draw(t, "id")
 	if e.Via == "errresponse" || ((e.Via == "cbreply" || e.Via == "bridge" || e.Via == "bridgebatch") && rapid.Bool().Draw(t, "iserr")) {
 		e.Code = rapid.SampledFrom([]int{1, -1, -32000, -32099, 2147483647, -2147483648, -32603, 7}).Draw(t, "code")
+		if e.Via == "errresponse" && rapid.IntRange(0, 4).Draw(t, "codezero") == 0 {
+			e.Code = 0 // an application code like any other: the member "code" is mandatory all the same
+		}
 		e.Message = genText(t, "msg", 1)
 	}
 	return e
